@@ -479,10 +479,7 @@ class TorrentFile(MetaFile, ProgMixin):
                     "path":
                     os.path.relpath(path, self.path).split(os.sep),
                 })
-                if filesize < self.piece_length:
-                    remainder = self.piece_length - filesize
-                else:
-                    remainder = filesize % self.piece_length
+                remainder = -filesize % self.piece_length
                 if remainder:
                     info["files"].append({
                         "attr": "p",
